@@ -76,6 +76,37 @@ def shuffle_exchanges(rng, d, tries=25):
     return d
 
 
+def pro_diagram(rng, depth):
+    """A rigid diagram over the self-adjoint types PRO(n): boxes, cups, caps on wires of the single
+    object 1 — closed loops (a cap whose legs enter the SAME cup) are well-typed here."""
+    o = (1, 0)
+    n = rng.randint(0, 3)
+    dom = [o] * n
+    boxes, offsets = [], []
+    for _ in range(depth):
+        kinds = ["gen", "gen", "cap", "cap"] + (["cup", "cup", "cup"] if n >= 2 else [])
+        k = rng.choice(kinds)
+        if k == "gen":
+            off = rng.randint(0, n)
+            a = rng.randint(0, min(2, n - off))
+            b = rng.randint(0, 2)
+            boxes.append(dict(kind="g", name="f%d" % rng.randint(0, 3), dom=[o] * a, cod=[o] * b,
+                              dagger=False, data=None))
+            n = n - a + b
+        elif k == "cap":
+            if n > 5:
+                continue
+            off = rng.randint(0, n)
+            boxes.append(cap_box(o, o))
+            n += 2
+        else:
+            off = rng.randint(0, n - 2)
+            boxes.append(cup_box(o, o))
+            n -= 2
+        offsets.append(off)
+    return ("mk", dom, [o] * n, boxes, offsets)
+
+
 def leftover_snake(d):
     """A cap whose leg runs straight into the opposite leg of a cup forming a snake equation."""
     from discopy.rigid import Cup, Cap
@@ -109,12 +140,17 @@ def run(tier, seed, replay=None):
     rng = random.Random(seed)
     drv = Driver()
     fam = Family("rigid")
+    fam_pro = Family("pro")
     try:
         for k in range(n_diagrams):
-            g = Gen(random.Random(rng.getrandbits(64)), rigid=True, maxw=5)
-            e0, scans = g.diagram(depth=rng.choice([0, 1, 2, 2, 3, 3, 4, 5]))
-            e1, kinds = insert_snakes(rng, e0, scans) if rng.random() < 0.8 else (e0, [])
-            d = shuffle_exchanges(rng, fam.run(e1))
+            if k % 6 == 5:
+                e1, kinds = pro_diagram(random.Random(rng.getrandbits(64)), rng.randint(2, 6)), ["pro"]
+                d = shuffle_exchanges(rng, fam_pro.run(e1))
+            else:
+                g = Gen(random.Random(rng.getrandbits(64)), rigid=True, maxw=5)
+                e0, scans = g.diagram(depth=rng.choice([0, 1, 2, 2, 3, 3, 4, 5]))
+                e1, kinds = insert_snakes(rng, e0, scans) if rng.random() < 0.8 else (e0, [])
+                d = shuffle_exchanges(rng, fam.run(e1))
             e = spec_diagram(d)
             for kd in kinds or ["none"]:
                 rep.count("inserted:" + kd)
